@@ -191,6 +191,16 @@ def monitorHist (sc : HScn) (entries : List String) : List (String × String) :=
       let delivered (o : Nat) : Nat := (m.batches.toList.map (fun b => (b.objs.filter (· == o)).length)).sum
       if (objs.zip atts).any (fun (o, a) => a > delivered o || a == 0) then
         m := m.add "C14" "attempt-count-differs-from-deliveries"
+      -- (without batch events the callback itself is the evidence that the batch was raised, at this very instant)
+      if !sc.emitBatch then
+        let bidx := m.batches.size
+        let mut calls := m.calls
+        for o in objs do
+          match calls.findIdx? (fun c => c.obj == o && c.delivered.isNone && !(c.res.map isValidationErr).getD false
+              && c.res != some "BufferFull" && c.res != some "Shutdown" && c.res != some "panic") with
+          | some i => calls := calls.modify i fun c => { c with delivered := some bidx }
+          | none => m := m.add "C01" "delivered-without-a-matching-accepted-enqueue"
+        m := { m with calls := calls, batches := m.batches.push { idx := bidx, objs := objs, raisedAt := t } }
       match m.batches.findIdx? (fun b => b.harnessB.isNone && b.objs == objs) with
       | some i =>
         m := { m with batches := m.batches.modify i fun b => { b with harnessB := some n2, w := some n3 } }
@@ -308,7 +318,9 @@ def checkHist (inp obs : KV) : Option String × List (String × String) :=
       [("C16", "does-not-terminate:" ++ obs.get "hang"), ("C20", "deadlock:" ++ obs.get "hang")]) else
   let sc := parseHScn inp
   let entries := if obs.get "tr" == "-" || obs.get "tr" == "" then [] else (obs.get "tr").splitOn ";"
-  let (mm, inconclusive) := acceptHist sc (inp.nat "cap") entries
+  -- without WithEmitBatch() the trace does not say what each cycle raised: no acceptance, the monitors alone judge it
+  -- (they take the batch from the callback that receives it)
+  let (mm, inconclusive) := if sc.emitBatch then acceptHist sc (inp.nat "cap") entries else (none, false)
   let mm := if inconclusive then some ("fields=inconclusive candidate-set-bound-hit " ++ (mm.getD "").take 300) else mm
   -- a library goroutine was still blocked after every callback, caller and loop had been released
   let leak := if obs.has "leak" then
